@@ -66,6 +66,8 @@ def config_of(case):
     t = case.split()
     if t[0] in ("pool", "pa"):
         return "%s(%s,%s,%s)" % (t[0].upper(), t[1], t[2], t[3])
+    if t[0] == "multi":
+        return "PA(%s,%s,%s)" % (t[1], t[2], t[3])
     if t[0] == "malloc":
         return "SYS(%s,%s)" % (t[1], t[2])
     if t[0] in ("debug", "dman", "debugkeep"):
@@ -382,6 +384,28 @@ def gen(ctx):
             if ndead and w % 3 != 2:
                 ops.append("b%d.2" % rng.randrange(ndead))
             cases.append("debugkeep %d %d %d " % (PAGE, sT, aT) + " ".join(ops))
+    # --- several allocator objects of one type: copies never share the pool, release through another object is refused, operator==
+    for sT, aT in TYPES:
+        for sN in [x for x in pa_s(sT) if x in (1, 2, 3, 7)][:(2 if quick else 4)]:
+            for w in range(1 if quick else 6):
+                ops, lives = [], [0]
+                for _ in range(rng.choice([15, 40] if quick else [20, 60, 150])):
+                    z = rng.random(); nal = len(lives)
+                    owners = [j for j in range(nal) if lives[j] > 0]
+                    if z < 0.45 or not owners:
+                        j = rng.randrange(nal); n = 1 if rng.random() < 0.93 else rng.choice([0, 2])
+                        ops.append("A%d.%d" % (j, n)); lives[j] += (n == 1)
+                    elif z < 0.68:
+                        j = rng.choice(owners); ops.append("F%d.%d" % (j, rng.randrange(lives[j]))); lives[j] -= 1
+                    elif z < 0.78 and nal < 6:
+                        ops.append("C%d" % rng.randrange(nal)); lives.append(0)
+                    elif z < 0.90:
+                        j = rng.choice(owners); k = rng.randrange(nal); i = rng.randrange(lives[j])
+                        ops.append("V%d.%d.%d" % (k, j, i)); lives[j] -= (k == j)
+                    else:
+                        ops.append("E%d.%d" % (rng.randrange(nal), rng.randrange(nal)))
+                cases.append("multi %d %d %d %s" % (sT, aT, sN, " ".join(ops)))
+    cases.append("multi 12 4 2 A0.1 C0 A1.1 E0.1 E1.1 V1.0.0 V0.0.0 F1.0 C1 A2.1 A2.1 A2.1 V0.2.1 E2.2 E0.2")
     # --- plain interface: max_size(), operator== / != (all overloads), rebind, PoolAllocator<void,s>
     for sT, aT in TYPES:
         for sN in pa_s(sT):
@@ -400,7 +424,7 @@ def gen(ctx):
     # --- AlignedBase<align,.>::operator new(count, ptr) (AlignedNumber<double,align> placed at a 4096-aligned buffer + off)
     for a in (16, 32, 64, 128):
         for off in sorted(set([0, 1, 8, a // 2, a - 1, a, a + 1, a + 8, 2 * a, 3 * a + a // 2, 4096, 4096 + a // 2, 8192 - a] + [rng.randrange(8192) for _ in range(6)])):
-            for mode in (0, 1, 2):          # operator new, operator new[], operator new with the default (aborting) handler
+            for mode in (0, 1, 2, 3):       # operator new, operator new[], default (aborting) handler, empty handler
                 cases.append("alignedbase %d %d %d" % (a, off, mode))
     return cases
 
@@ -411,12 +435,12 @@ def case_parts(case):
     kind = t[0]
     if kind == "api":
         return kind, t[1:], []
-    npar = {"pool": 3, "pa": 3, "malloc": 2, "aligned": 3, "debug": 3, "dman": 3, "debugkeep": 3, "isaligned": 2, "alignedbase": 3}[kind]
+    npar = {"pool": 3, "pa": 3, "malloc": 2, "aligned": 3, "debug": 3, "dman": 3, "debugkeep": 3, "isaligned": 2, "alignedbase": 3, "multi": 3}[kind]
     return kind, [int(x) for x in t[1:1 + npar]], t[1 + npar:]
 
 
 DEBUG_KINDS = ("debug", "dman", "debugkeep")
-NOSCRIPT = ("isaligned", "alignedbase", "api")
+NOSCRIPT = ("isaligned", "alignedbase", "api", "multi")
 
 
 def succeeds_fn(kind, par):
@@ -436,6 +460,10 @@ def sig_of(case, impl_line, verdict):
         return "C15:api:%s" % par[0]
     if kind == "alignedbase":
         return "C15:alignedbase:mode%d" % par[2]
+    if kind == "multi":
+        fl = re.search(r"!([a-z-]+)", verdict)
+        return "C15:multi:" + (fl.group(1) if fl else "not-refused" if "not refused" in verdict else "operator-eq" if "operator==" in verdict
+                               else "destroy" if "destroying" in verdict else "crash" if "incomplete" in verdict else "block-predicate")
     m = re.search(r"at op (\d+): (\S+)", verdict)
     if kind in DEBUG_KINDS and m:
         k, tok = int(m.group(1)), m.group(2)
@@ -589,6 +617,10 @@ def shrink(ctx, model, impl, case, sig, impl_line, verdict):
     return best
 
 
+def params_hook(ctx):
+    V.sh([sys.executable, os.path.join(V.VERIF, "tools", "extract_params.py"), ctx.repo], check=True)
+
+
 def coqchk(ctx):
     """thorough tier: independent re-check of the compiled property file (and everything it depends on) by coqchk"""
     with V.locked("coq"):
@@ -600,6 +632,7 @@ def coqchk(ctx):
 
 
 def run(ctx):
+    ctx.params_hook = params_hook
     ok = V.coq_stage(ctx)
     if ok and not ctx.quick:
         coqchk(ctx)
